@@ -1442,6 +1442,13 @@ def _check_autodiscover(run, world, mod, F, cfg, ys, fn):
                    label, _brief(got), _brief(want)), where(mod, fn),
                sample={"rule": "R-DEVSEQ-RANGE", "addresses": label,
                        "scan": _brief(got)})
+    # the int form never names an address that does not exist: 64 is "all
+    # 64 addresses", and DeviceShort(64) in the middle of the scan would
+    # raise with quiescent mode left on
+    got64 = _fold_addresses(folder, cfg, fn, 64, outer_iter)
+    run.ob("R-DEVSEQ-RANGE", F + "#addresses=64", got64 == list(range(64)),
+           "with addresses=64 the scan covers %s, expected the 64 short "
+           "addresses 0..63" % _brief(got64), where(mod, fn))
     # int form: documented "from zero to that value"
     got = _fold_addresses(folder, cfg, fn, 8, outer_iter)
     run.ob("R-DEVSEQ-RANGE", F + "#addresses=int", got in (
